@@ -776,7 +776,12 @@ def run(ctx):
         kept.append(c)
         results.append(r)
         nrec = sum(len(f) for f in r["files"]) // 16
-        tags = list(c["tags"]) + observed_tags(c, r) + ["mode:" + ("soak" if c["kind"] == "soak" else "step"),
+        sizes = set(len(e[1]) for l in r["logs"] for e in l if e[0] == "E")
+        argtags = ["record-size=%d" % z for z in sorted(sizes) if z != 16]
+        if any(e[0] == "E" and len(e[1]) in (24, 32) and any(e[1][-4:]) and (struct.unpack("<Q", e[1][8:16])[0] >> 16) - r["base"] - 4 in (256, 5 * 256, 7 * 256)
+               for l in r["logs"] for e in l):
+            argtags.append("padding-nonzero-observed")
+        tags = list(c["tags"]) + argtags + observed_tags(c, r) + ["mode:" + ("soak" if c["kind"] == "soak" else "step"),
                                                         "writers=%d" % c["nw"], "threads=%d" % c["nt"]]
         ctx.case(key=(c["kind"], c["bufsize"], c["nw"], c["nt"], tuple(c["ops"])), nontrivial=nrec >= 4, tags=tags,
                  size=len(c["ops"]),
